@@ -10,7 +10,7 @@ from .devices import open_device
 from .formats import file_formats
 from .metacommand_impl import get_as_int
 from . import operators
-from .types import Instruction, Label, Assignment, InstructionPointer, WordList, ParenthesizedExpression
+from .types import Instruction, Label, Assignment, InstructionPointer, WordList, ParenthesizedExpression, CodeBlock
 from . import reports
 
 
@@ -274,6 +274,12 @@ class Compiler:
                     elif isinstance(symbol, Assignment):
                         # Implicit .word
                         words = [insn.name] + insn.operands[:]
+                        if isinstance(words[-1], CodeBlock):
+                            reports.error(
+                                "wrong-operands",
+                                (words[-1].ctx_start, words[-1].ctx_end, "A word list does not take a code block")
+                            )
+                            return None
                         if len(words) > 1:
                             if isinstance(words[1], ParenthesizedExpression) and words[1].opening_parenthesis == "(":
                                 # 'a (expr)' was misparsed as instruction 'a' with operand '(expr)'
